@@ -6,6 +6,8 @@ tactics shared by the `lower_…` theorems.  Core Lean only.
 -/
 import WuffsVerif.Model.CExpr
 
+set_option linter.unusedSimpArgs false
+
 namespace WuffsVerif.Proof.C04
 open WuffsVerif.WOps WuffsVerif.C WuffsVerif.Gen.C04
 
